@@ -265,6 +265,20 @@ func writebackCase(c *vlib.Ctx, i int, r *vlib.Rand) {
 	for k, v := range input {
 		in2[k] = v
 	}
+	// files an earlier, interrupted write-back (or an editor) may have left next to the
+	// configuration file: whatever they hold must never reach the file
+	planted := false
+	if r.Chance(1, 3) {
+		planted = true
+		stale := oldText + strings.Repeat("stale.leftover.key=from-an-interrupted-write\n", r.Range(50, 400))
+		base := filepath.Base(path)
+		for _, n := range []string{base + ".tmp", base + ".tmp0", base + ".bak", base + "~", "." + base + ".swp", base + ".new"} {
+			if r.Chance(2, 3) {
+				os.WriteFile(filepath.Join(filepath.Dir(path), n), []byte(stale), 0o644)
+			}
+		}
+		c.Count("writebacks_next_to_leftover_scratch_files", 1)
+	}
 	if p := vlib.Catch(func() { conf.SetValues(&in2) }); p != nil {
 		c.Fail("FileConfig.SetValues:panic/"+classOf(shape, vclass), fmt.Sprintf("SetValues panicked: %v", p), wbCase{shape, vclass, prefix, suffix, exclude, clipMap(input), clipStr(oldText, 3000), ""})
 		return
@@ -275,6 +289,11 @@ func writebackCase(c *vlib.Ctx, i int, r *vlib.Rand) {
 		return
 	}
 	newText := string(nb)
+	if planted && strings.Contains(newText, "stale.leftover.key") {
+		c.Fail("FileConfig.SetValues:leftover-scratch-content-in-file", "after SetValues the configuration file holds content of a stale scratch file that lay next to it",
+			wbCase{shape, vclass, prefix, suffix, exclude, clipMap(input), clipStr(oldText, 3000), clipStr(newText, 3000)})
+		return
+	}
 	_, newMap := refParse(newText)
 	det := wbCase{shape, vclass, prefix, suffix, exclude, clipMap(input), clipStr(oldText, 3000), clipStr(newText, 3000)}
 	sfx := ""
